@@ -54,6 +54,12 @@ SaneViolations(r, firstVer, its) ==
   \cup (IF Dw(r) > 1 THEN {"dw"} ELSE {})
   \cup (IF DataFormat(r) > 2 THEN {"data_format"} ELSE {})
 
+\* a printed RDH row (view rdh, `current :` context row of an error message) against the 64 bytes it is about
+RowMatches(row, r) == /\ row.ver = Version(r) /\ row.hsize = HeaderSize(r) /\ row.fee = FeeId(r) /\ row.sys = SystemId(r)
+                      /\ row.offnext = OffsetNext(r) /\ row.link = LinkId(r) /\ row.pkt = PacketCnt(r) /\ row.bc = Bc(r)
+                      /\ row.orbit = OrbitBytes(r) /\ row.df = DataFormat(r) /\ row.trig = TrigBytes(r) /\ row.pages = Pages(r)
+                      /\ row.stop = Stop(r) /\ row.det = DetBytes(r)
+
 (* ---- running rules ---- *)
 RunInit == [n |-> 0, exp |-> 0, incr |-> 1, hasLast |-> FALSE, lstop |-> 0, lorbit |-> <<>>, ltrig |-> <<>>, lfee |-> 0]
 
